@@ -194,12 +194,13 @@ def gen_fit(rng, models=MODELS, small_noise=False):
         ys = [a * x * x + b * x + c for x in xs]
     elif model == "polynomial":
         deg = rng.choice([1, 3, 3, 4])
+        xs = [x / 2 for x in xs]         # keeps x^4 small: the exact model is compared with double arithmetic at 1e-12
         cs = [dyad(rng, -1, 1) for _ in range(deg + 1)]
         ys = [sum(c * x ** k for k, c in enumerate(cs)) for x in xs]
         spec["degrees"] = deg
         n_min = deg + 3
         while len(xs) < n_min:
-            xs.append(xs[-1] + 1.0)
+            xs.append(xs[-1] + 0.5)
             ys.append(sum(c * xs[-1] ** k for k, c in enumerate(cs)))
             noise.append(rng.randint(-8, 8) / 256)
     elif model == "exponential":
@@ -1017,15 +1018,16 @@ def check_script(script, order=None):
     return oracle(script, order, run)
 
 
-def same_drawing(a, b):
-    """equality of two per-object observations up to double rounding (the propagated uncertainties of residuals are
-    sums over a set of source measurements whose iteration order differs between runs)"""
+def same_drawing(a, b, loose=False):
+    """equality of two per-object observations up to double rounding.  The propagated uncertainties of residuals
+    (key res_ybars) are sums of large, strongly anti-correlated terms over a SET of source measurements whose iteration
+    order differs between runs: they are reproducible only to ~1e-6 relative, and are compared at that level"""
     if isinstance(a, dict) and isinstance(b, dict):
-        return a.keys() == b.keys() and all(same_drawing(a[k], b[k]) for k in a)
+        return a.keys() == b.keys() and all(same_drawing(a[k], b[k], loose or k == "res_ybars") for k in a)
     if isinstance(a, list) and isinstance(b, list):
-        return len(a) == len(b) and all(same_drawing(x, y) for x, y in zip(a, b))
+        return len(a) == len(b) and all(same_drawing(x, y, loose) for x, y in zip(a, b))
     if isinstance(a, float) and isinstance(b, float):
-        return close(a, b)
+        return close(a, b, 1e-6, 1e-8) if loose else close(a, b)
     return a == b
 
 
@@ -1036,6 +1038,9 @@ def per_object(order, objects):
         if o["kind"] == "fit":          # the Monte Carlo curve is only statistically reproducible
             for k in ("y", "lower", "upper"):
                 o.pop(k, None)
+            if o.get("res") and "ybars" in o["res"]:
+                o["res"] = dict(o["res"])
+                o["res_ybars"] = o["res"].pop("ybars")
         per[i] = o
     return per
 
